@@ -25,6 +25,7 @@ type Ctx struct {
 	R        *rng.R
 	Res      *rep.Result
 	Start    time.Time
+	Hung     bool // a call never returned: the process state is no longer trustworthy, stop generating
 
 	ops, exp *bufio.Writer
 	fo, fe   *os.File
